@@ -347,7 +347,7 @@ func (w *Worker) decide(e *Exec, q *Term) Result {
 }
 
 func (w *Worker) initHeap() error {
-	e := &Exec{w: w, eng: w.eng, ctx: w.ctx, globals: map[*ssa.Global]*Object{}, initMode: true, stepBudget: 50_000_000, h: w.h, maxAlloc: 1 << 24, arith: false}
+	e := &Exec{w: w, eng: w.eng, ctx: w.ctx, globals: map[*ssa.Global]*Object{}, initMode: true, stepBudget: 50_000_000, h: w.h, maxAlloc: 1 << 24, arith: w.h.Arith}
 	var ierr error
 	for _, p := range w.eng.initOrder {
 		fn := p.Func("init")
